@@ -39,6 +39,39 @@ func (fr *Frame) special(site ssa.Instruction, f *ssa.Function, args []Value, st
 			}
 		}
 		return Var(freshName("deepequal"), SBool), true
+	case "reflect.ValueOf":
+		iv := args[0].(IfaceV)
+		return App("rvOf", SInt, iv.Tag, iv.Val), true
+	case "(reflect.Value).Kind":
+		// the kind of a value whose dynamic type is known statically
+		if v, ok := args[0].(*Term); ok && v.Op == "app" && v.Name == "rvOf" && v.Args[0].Op == "int" {
+			if t, ok := typeTagTypes[v.Args[0].Int]; ok {
+				k := int64(-1)
+				switch t.Underlying().(type) {
+				case *types.Struct:
+					k = 25
+				case *types.Pointer:
+					k = 22
+				case *types.Slice:
+					k = 23
+				case *types.Map:
+					k = 21
+				case *types.Interface:
+					k = 20
+				case *types.Signature:
+					k = 19
+				case *types.Chan:
+					k = 18
+				}
+				if b, ok := t.Underlying().(*types.Basic); ok && b.Kind() == types.String {
+					k = 24
+				}
+				if k >= 0 {
+					vc.assumed["A-MISC: reflect.Value.Kind of a value of statically known dynamic type is that type's kind"] = true
+					return IntLit(k), true
+				}
+			}
+		}
 	case "strings.HasPrefix":
 		return App("hasPrefix", SBool, args[0].(*Term), args[1].(*Term)), true
 	case "strings.HasSuffix":
